@@ -39,6 +39,7 @@ Oracle (parsed from the generated file; PY3 branch and Python-2 branch separatel
     the same library) is asked as well and a disagreement is left unjudged (it is C12's
     subject) and counted.
 """
+import hashlib
 import itertools
 import os
 import re
@@ -56,104 +57,184 @@ def libname(j):
 
 
 # ----------------------------------------------------------------------------- generation
+# A library's content is a set of *walks* in the dependency graph that start at it:
+#   (1, (j, t))            class C_j_t       : public B_t          (inheritance edge j->t)
+#   (2, (j, t))            typedef B_t T_j_t (forced, used in a published signature)
+#   (1, (j, t, u, ...))    class C_j_t_u..   : public C_t_u..      (chain: derives from a class
+#                                                                   that another library derived)
+#   (2, (j, t, u, ...))    typedef C_t_u.. T_j_t_u..
+# Only the first edge of a walk may be a typedef edge, all later edges are inheritance
+# edges (the class C_t_u.. has to exist).  Every class lives in its own header
+# l<v0>/c_<walk>.h, so that another library can include exactly that class as a foreign file.
 def base_header(j):
     return ("#ifndef B%d_H\n#define B%d_H\nclass B%d {\n__published:\n  B%d();\n"
             "  int v%d() const;\n};\n#endif\n" % (j, j, j, j, j))
 
 
-def edge_header(k, j, code):
-    """code: tuple over t in range(k) (code[j] == 0) of 0 none / 1 derive / 2 typedef."""
-    out = ['#include "b%d.h"\n' % j]
-    cmds = []
-    for t in range(k):
-        if code[t]:
-            out.append('#include "l%d/b%d.h"\n' % (t, t))
-    for t in range(k):
-        if code[t] == 1:
-            out.append("class D_%d_%d : public B%d {\n__published:\n  D_%d_%d();\n"
-                       "  int w_%d_%d() const;\n};\n" % (j, t, t, j, t, j, t))
-        elif code[t] == 2:
-            out.append("typedef B%d T_%d_%d;\n__begin_publish\nint use_%d_%d(T_%d_%d *p);\n"
-                       "__end_publish\n" % (t, j, t, j, t, j, t))
-            cmds.append("forcetype T_%d_%d\n" % (j, t))
-    return "".join(out), "".join(cmds)
+def wname(path):
+    return "_".join(str(v) for v in path)
+
+
+def class_of(path):
+    """name of the class a walk denotes; a walk of one vertex is the root class."""
+    return "B%d" % path[0] if len(path) == 1 else "C_" + wname(path)
+
+
+def header_of(path):
+    return "l%d/b%d.h" % (path[0], path[0]) if len(path) == 1 else "l%d/c_%s.h" % (path[0], wname(path))
+
+
+def class_header(path):
+    n = wname(path)
+    return ("#ifndef C_%s_H\n#define C_%s_H\n#include \"%s\"\nclass C_%s : public %s {\n__published:\n"
+            "  C_%s();\n  int w_%s() const;\n};\n#endif\n"
+            % (n, n, header_of(path[1:]), n, class_of(path[1:]), n, n))
+
+
+def derive_walks(g, t, depth):
+    """walks of 0..depth inheritance edges starting at t (as vertex tuples)."""
+    out = [(t,)]
+    frontier = [(t,)]
+    for _ in range(depth):
+        nxt = []
+        for w in frontier:
+            for u in range(len(g)):
+                if g[w[-1]][u] == 1:
+                    nxt.append(w + (u,))
+        out += nxt
+        frontier = nxt
+    return out
+
+
+def lib_content(g, j, depth):
+    """canonical content key of library j in graph g with chains up to `depth` edges."""
+    items = []
+    for t in range(len(g)):
+        if g[j][t]:
+            for tail in derive_walks(g, t, depth - 1):
+                items.append((g[j][t], (j,) + tail))
+    return tuple(sorted(items, key=lambda it: (len(it[1]), it[1], it[0])))
+
+
+def content_id(j, content):
+    if all(len(p) == 2 for _, p in content):
+        code = {p[1]: kd for kd, p in content}
+        return "l%d_%s" % (j, "".join(str(code.get(t, 0)) for t in range(1 + max([j] + list(code)))))
+    return "l%d_%s" % (j, hashlib.sha1(repr(content).encode()).hexdigest()[:14])
+
+
+def db_path(dbroot, k, j, content):
+    return os.path.join(dbroot, "k%d" % k, "db", content_id(j, content) + ".in")
 
 
 def code_str(code):
     return "".join(str(c) for c in code)
 
 
-def gen_databases(b, root, k, backend="-python-native"):
-    """Real interrogate runs for every (library, out-edge vector).  Returns
-    {(j, code): path}."""
+def write_library(root, k, j, content):
+    """files of library j for one content; returns the stem of its main header."""
+    d = os.path.join(root, "l%d" % j)
+    stem = "x" + content_id(j, content)
+    out = ['#include "b%d.h"\n' % j]
+    cmds = []
+    for kind, path in content:                       # sorted by depth: own classes first
+        if kind == 1:
+            fn = os.path.join(d, "c_%s.h" % wname(path))
+            if not os.path.exists(fn):
+                with open(fn + ".%d.tmp" % os.getpid(), "w") as f:
+                    f.write(class_header(path))
+                os.replace(fn + ".%d.tmp" % os.getpid(), fn)
+            out.append('#include "c_%s.h"\n' % wname(path))
+        else:
+            n = wname(path)
+            out.append('#include "%s"\ntypedef %s T_%s;\n__begin_publish\nint use_%s(T_%s *p);\n__end_publish\n'
+                       % (header_of(path[1:]), class_of(path[1:]), n, n, n))
+            cmds.append("forcetype T_%s\n" % n)
+    with open(os.path.join(d, stem + ".h"), "w") as f:
+        f.write("".join(out))
+    if cmds:
+        with open(os.path.join(d, stem + ".N"), "w") as f:
+            f.write("".join(cmds))
+    return d, stem
+
+
+def needed_class_headers(root, k, contents):
+    """every class header a foreign library may include must exist before any run."""
+    for j, content in contents:
+        for kind, path in content:
+            for i in range(1 if kind == 2 else 0, len(path) - 1):
+                sub = path[i:]
+                fn = os.path.join(root, "l%d" % sub[0], "c_%s.h" % wname(sub))
+                if not os.path.exists(fn):
+                    with open(fn, "w") as f:
+                        f.write(class_header(sub))
+
+
+def gen_databases(b, root, k, contents, have=None, backend="-python-native"):
+    """Real interrogate runs for every (library, content) in `contents` not yet in
+    `have`.  Returns {(j, content): path}."""
+    have = have if have is not None else {}
     os.makedirs(os.path.join(root, "db"), exist_ok=True)
-    jobs = []
     for j in range(k):
         d = os.path.join(root, "l%d" % j)
         os.makedirs(d, exist_ok=True)
-        with open(os.path.join(d, "b%d.h" % j), "w") as f:
-            f.write(base_header(j))
-        others = [t for t in range(k) if t != j]
-        for kinds in itertools.product((0, 1, 2), repeat=len(others)):
-            code = [0] * k
-            for t, c in zip(others, kinds):
-                code[t] = c
-            code = tuple(code)
-            stem = "e%s" % code_str(code)
-            h, n = edge_header(k, j, code)
-            with open(os.path.join(d, stem + ".h"), "w") as f:
-                f.write(h)
-            if n:
-                with open(os.path.join(d, stem + ".N"), "w") as f:
-                    f.write(n)
-            jobs.append((j, code, d, stem))
+        fn = os.path.join(d, "b%d.h" % j)
+        if not os.path.exists(fn):
+            with open(fn, "w") as f:
+                f.write(base_header(j))
+    todo = sorted(set(c for c in contents if c not in have))
+    needed_class_headers(root, k, todo)
+    jobs = [(j, content) + write_library(root, k, j, content) for j, content in todo]
 
     def one(job):
-        j, code, d, stem = job
-        out = os.path.join(root, "db", "l%d_%s.in" % (j, code_str(code)))
+        j, content, d, stem = job
+        out = os.path.join(root, "db", content_id(j, content) + ".in")
         r = tools.interrogate(b, ["-oc", os.path.join(d, stem + ".cxx"), "-od", out,
                                   "-module", "m", "-library", libname(j), backend,
                                   "-I..", "b%d.h" % j, stem + ".h"], cwd=d)
-        try:
-            os.remove(os.path.join(d, stem + ".cxx"))
-        except OSError:
-            pass
+        for ext in (".cxx", ".h", ".N"):
+            try:
+                os.remove(os.path.join(d, stem + ext))
+            except OSError:
+                pass
         if r.rc != 0 or not os.path.exists(out):
-            raise HarnessError("interrogate failed for library %d code %s: %s"
-                               % (j, code_str(code), r.brief()))
-        return (j, code), out
+            raise HarnessError("interrogate failed for library %d content %s: %s" % (j, content, r.brief()))
+        return (j, content), out
 
-    return dict(pmap(one, jobs))
+    new = dict(pmap(one, jobs))
+    check_databases(b, new, k)
+    have.update(new)
+    return have
 
 
 def check_databases(b, dbs, k):
     """The generated databases must really contain the intended edges (otherwise the
     exploration is vacuous): harness error if not."""
     def one(item):
-        (j, code), path = item
+        (j, content), path = item
         d = tools.idb_dump(b, [path])
-        types = d["types"]
         glob = set(d["global_types"])
-        byname = {t["true_name"]: (int(i), t) for i, t in types.items()}
+        byname = {t["true_name"]: (int(i), t) for i, t in d["types"].items()}
         if "B%d" % j not in byname or byname["B%d" % j][0] not in glob:
             raise HarnessError("B%d is not a global type of its own library" % j)
-        for t in range(k):
-            if code[t] == 0:
-                if t != j and ("B%d" % t) in byname:
-                    raise HarnessError("library %d code %s mentions B%d without an edge"
-                                       % (j, code_str(code), t))
-                continue
-            bi, bt = byname.get("B%d" % t, (None, None))
-            if bt is None or (bt["flags"] & 0x1) or bi in glob:
-                raise HarnessError("B%d should be a foreign, non-global type in library %d" % (t, j))
-            if code[t] == 1:
-                di, dt = byname["D_%d_%d" % (j, t)]
-                if di not in glob or [x["base"] for x in dt["derivations"]] != [bi]:
-                    raise HarnessError("D_%d_%d has no derivation edge" % (j, t))
+        for kind, p in content:
+            base = class_of(p[1:])
+            bi, bt = byname.get(base, (None, None))
+            if bt is None or (bt["flags"] & 0x1) or bi in glob or (bt["flags"] & 0x2000):
+                raise HarnessError("%s should be a foreign (not global, not fully defined) type in library %d, "
+                                   "content %s" % (base, j, content))
+            if kind == 1:
+                di, dt = byname.get("C_" + wname(p), (None, None))
+                if dt is None or di not in glob or [x["base"] for x in dt["derivations"]] != [bi]:
+                    raise HarnessError("C_%s is not a global class derived from %s" % (wname(p), base))
             else:
-                ti, tt = byname["T_%d_%d" % (j, t)]
-                if ti not in glob or tt["wrapped_type"] != bi:
-                    raise HarnessError("T_%d_%d is not a global typedef of B%d" % (j, t, t))
+                ti, tt = byname.get("T_" + wname(p), (None, None))
+                if tt is None or ti not in glob or tt["wrapped_type"] != bi:
+                    raise HarnessError("T_%s is not a global typedef of %s" % (wname(p), base))
+        want = {"B%d" % j} | {("C_" if kd == 1 else "T_") + wname(p) for kd, p in content}
+        have_g = {d["types"][str(i)]["true_name"] for i in glob}
+        if have_g != want:
+            raise HarnessError("library %d content %s: global types %s, expected %s" % (j, content, sorted(have_g), sorted(want)))
         return True
     pmap(one, list(dbs.items()))
 
@@ -309,8 +390,12 @@ def judge_graph(g, perm, obs, names=None):
             continue
         j, t = idx[la], idx[lb]
         want = 1 if what == "inherits from" else 2
-        expect_t = ("D_%d_%d" if want == 1 else "T_%d_%d") % (j, t)
-        if g[j][t] != want or tn != expect_t or bn != "B%d" % t:
+        m = re.match(r"^[CT]_(\d+(?:_\d+)+)$", tn)
+        path = tuple(int(x) for x in m.group(1).split("_")) if m else ()
+        ok = (len(path) >= 2 and tn[0] == ("C" if want == 1 else "T") and path[0] == j and path[1] == t
+              and all(v < k for v in path) and g[j][t] == want and bn == class_of(path[1:])
+              and all(g[a][c] == 1 for a, c in zip(path[1:], path[2:])))
+        if not ok:
             problems.append("reported dependency '%s (%s) %s %s (%s)' does not exist" % (tn, la, what, bn, lb))
     if cyclic and not (rep["announced"] and rep["cycles"]):
         problems.append("cyclic graph but no cycle was reported")
@@ -339,8 +424,8 @@ def judge_graph(g, perm, obs, names=None):
 
 def graph_case(ctx, case, timeout=10):
     b, workdir, dbroot = ctx
-    k, g, perm, tag = case
-    files = [os.path.join(dbroot, "k%d" % k, "db", "l%d_%s.in" % (j, code_str(g[j]))) for j in perm]
+    k, g, perm, tag, depth = case
+    files = [db_path(dbroot, k, j, lib_content(g, j, depth)) for j in perm]
     obs = run_module(b, workdir, tag, files, timeout=timeout)
     if obs["timeout"] and timeout < 100:
         obs = run_module(b, workdir, tag, files, timeout=100)       # alone, 10x
@@ -355,12 +440,14 @@ def graph_chunk(arg):
     workdir = os.path.join(workroot, "w%d" % wid)
     os.makedirs(workdir, exist_ok=True)
     res = []
-    for n, (k, g, perm) in enumerate(cases):
-        problems, outcome, obs = graph_case((b, workdir, dbroot), (k, g, perm, "m"))
-        key = "k%d/g%s/p%s" % (k, graph_key(g), code_str(perm))
+    for n, (k, g, perm, depth) in enumerate(cases):
+        problems, outcome, obs = graph_case((b, workdir, dbroot), (k, g, perm, "m", depth))
+        key = "k%dd%d/g%s/p%s" % (k, depth, graph_key(g), code_str(perm))
         nedges = sum(1 for r in g for c in r if c)
+        if depth > 1:
+            outcome = "chains " + outcome
         res.append((key, outcome, nedges > 0, problems,
-                    {"k": k, "graph": [list(r) for r in g], "perm": list(perm), "rc": obs["rc"],
+                    {"k": k, "depth": depth, "graph": [list(r) for r in g], "perm": list(perm), "rc": obs["rc"],
                      "stderr_head": obs["stderr"][:200]}))
     return res
 
@@ -397,6 +484,16 @@ def failure_files(root, good):
     for n in range(len(data)):
         out.append(("trunc@%d" % n, w("t%d.in" % n, data[:n]), n < body))
     return out, len(data)
+
+
+FAIL_CHAIN = ((0, 0, 0), (1, 0, 0), (0, 1, 0))
+
+
+def failure_base(dbroot):
+    """the loadable databases of the failure family: the chain 2 -> 1 -> 0; library 1 is
+    the one that gets damaged."""
+    goods = [db_path(dbroot, 3, j, lib_content(FAIL_CHAIN, j, 1)) for j in (0, 2)]
+    return goods, db_path(dbroot, 3, 1, lib_content(FAIL_CHAIN, 1, 1))
 
 
 def failure_case(ctx, case, timeout=10):
@@ -534,9 +631,12 @@ def main():
     if ck.replay:
         return replay(ck, b, dbroot, workroot)
 
-    bounds = [(1, "all3"), (2, "all3"), (3, "all3")]
+    # (k, edge-kind mode, chain depth): depth 1 = classes derive from root classes only;
+    # depth d = for every walk of <= d edges a class deriving from the previous walk's class
+    bounds = [(1, "all3", 1), (2, "all3", 1), (2, "all3", 2), (2, "all3", 3),
+              (3, "all3", 1), (3, "all3", 2), (3, "all3", 3)]
     if thorough:
-        bounds += [(4, "derive"), (4, "typedef"), (4, "mixed")]
+        bounds += [(4, "derive", 1), (4, "typedef", 1), (4, "mixed", 1), (4, "derive", 2), (4, "mixed", 2)]
     done_bound = None
     seen_graphs = set()
     dbs_for = {}
@@ -554,20 +654,22 @@ def main():
                 else:
                     ck.extra["failing_cases_not_individually_reported"] = nfail[0] - 20
 
-    for (k, mode) in bounds:
-        if k not in dbs_for:
-            kroot = os.path.join(dbroot, "k%d" % k)
-            dbs_for[k] = gen_databases(b, kroot, k)
-            check_databases(b, dbs_for[k], k)
+    for (k, mode, depth) in bounds:
+        kroot = os.path.join(dbroot, "k%d" % k)
         cases = []
+        contents = set()
         for g in graphs(k, mode):
-            gk = (k, g)
-            if gk in seen_graphs:
+            prog = tuple((j, lib_content(g, j, depth)) for j in range(k))
+            gk = (k, g, prog)            # the same graph with deeper chains is a new program only
+            if gk in seen_graphs:        # if a chain class actually appears
                 continue
             seen_graphs.add(gk)
+            contents.update(prog)
             states += 1
             for perm in itertools.permutations(range(k)):
-                cases.append((k, g, perm))
+                cases.append((k, g, perm, depth))
+        dbs_for[k] = gen_databases(b, kroot, k, contents, dbs_for.get(k))
+        ck.extra["databases_k%d" % k] = len(dbs_for[k])
         ctx = (b, workroot, dbroot)
         cut = False
         # batches of 16 chunks so the deadline is honoured between batches
@@ -575,15 +677,15 @@ def main():
         cl = chunks(cases, per)
         for i in range(0, len(cl), 64):
             if ck.expired(reserve=30):
-                ck.cap("deadline inside bound k=%d/%s after %d of %d runs" % (k, mode, i * per, len(cases)))
+                ck.cap("deadline inside bound k=%d/%s/depth %d after %d of %d runs" % (k, mode, depth, i * per, len(cases)))
                 cut = True
                 break
             batch = [(ctx, c, i + n) for n, c in enumerate(cl[i:i + 64])]
             for res in pmap_proc(graph_chunk, batch):
-                handle(res, "graph k=%d %s" % (k, mode))
+                handle(res, "graph k=%d %s depth=%d" % (k, mode, depth))
         if cut:
             break
-        done_bound = "k=%d (%s)" % (k, mode)
+        done_bound = "k=%d (%s, chain depth %d)" % (k, mode, depth)
 
     # ---- content family: libraries contributing a single kind of thing
     content = gen_content(b, root)
@@ -603,9 +705,7 @@ def main():
 
     # ---- failure family
     k = 3
-    chain = ((0, 0, 0), (1, 0, 0), (0, 1, 0))
-    goods_all = [os.path.join(dbroot, "k3", "db", "l%d_%s.in" % (j, code_str(chain[j]))) for j in (0, 2)]
-    victim = os.path.join(dbroot, "k3", "db", "l1_%s.in" % code_str(chain[1]))
+    goods_all, victim = failure_base(dbroot)
     bad, size = failure_files(root, victim)
     fcases = []
     for kind, path, apriori in bad:
@@ -676,16 +776,15 @@ def rerun(b, dbroot, wd, key, sample):
     if key.startswith("fail/"):
         raise_if = sample
         root = os.path.dirname(dbroot)
-        chain = ((0, 0, 0), (1, 0, 0), (0, 1, 0))
-        goods_all = [os.path.join(dbroot, "k3", "db", "l%d_%s.in" % (j, code_str(chain[j]))) for j in (0, 2)]
-        victim = os.path.join(dbroot, "k3", "db", "l1_%s.in" % code_str(chain[1]))
+        goods_all, victim = failure_base(dbroot)
         bad, _ = failure_files(root, victim)
         path, apriori = [(p, a) for (kd, p, a) in bad if kd == sample["kind"]][0]
         res = failure_chunk(((b, wd), [(sample["kind"], path, apriori, goods_all[:sample["good"]],
                                         sample["position"], sample["stale_output"], sample["backend"])], 0))
         return res[0][3], res[0]
     g = tuple(tuple(r) for r in sample["graph"])
-    problems, outcome, obs = graph_case((b, wd, dbroot), (sample["k"], g, tuple(sample["perm"]), "c"))
+    problems, outcome, obs = graph_case((b, wd, dbroot), (sample["k"], g, tuple(sample["perm"]), "c",
+                                                          sample.get("depth", 1)))
     return problems, (outcome, obs["rc"], obs["stderr"], parse_module(obs["text"]) if obs["text"] else None)
 
 
@@ -694,9 +793,12 @@ def replay(ck, b, dbroot, workroot):
     sample = rp["detail"]["sample"]
     key = rp["key"]
     if not key.startswith("content/"):
-        k = 3 if key.startswith("fail/") else sample["k"]
+        if key.startswith("fail/"):
+            k, g, depth = 3, FAIL_CHAIN, 1
+        else:
+            k, g, depth = sample["k"], tuple(tuple(r) for r in sample["graph"]), sample.get("depth", 1)
         kroot = os.path.join(dbroot, "k%d" % k)
-        gen_databases(b, kroot, k)
+        gen_databases(b, kroot, k, [(j, lib_content(g, j, depth)) for j in range(k)])
     wd = os.path.join(workroot, "replay")
     os.makedirs(wd, exist_ok=True)
     problems, info = rerun(b, dbroot, wd, key, sample)
